@@ -173,10 +173,17 @@ var c18Pkgs = []c12Pkg{
 // c18Child runs one package harness as a sub-process with the generic C18 hook on and adopts its
 // C18 violations (replay = "pkg <Test>" + the child's own replay lines).
 func c18Child(r *Run, test string, replay []string, seed uint64) {
-	out := filepath.Join(r.OutDir, "c18-"+test)
+	metaChild(r, "C18", []string{"VERIF_C18=1"}, c18Pkgs, test, replay, seed)
+}
+
+// metaChild runs one package harness as a sub-process and adopts its violations of property `pid`
+// (signature prefix pid + "/"; replay = "pkg <Test>" + the child's own replay lines).
+func metaChild(r *Run, pid string, env []string, pkgs []c12Pkg, test string, replay []string, seed uint64) {
+	lp := strings.ToLower(pid)
+	out := filepath.Join(r.OutDir, lp+"-"+test)
 	os.RemoveAll(out)
-	extra := []string{"VERIF_C18=1"}
-	for _, pk := range c18Pkgs {
+	extra := append([]string(nil), env...)
+	for _, pk := range pkgs {
 		if pk.Test == test && replay == nil {
 			for _, e := range pk.Env {
 				if r.Thorough() && strings.HasPrefix(e, "VERIF_SCALE=") {
@@ -189,12 +196,12 @@ func c18Child(r *Run, test string, replay []string, seed uint64) {
 	}
 	rp := ""
 	if replay != nil {
-		rp = filepath.Join(r.OutDir, "c18-"+test+".replay")
+		rp = filepath.Join(r.OutDir, lp+"-"+test+".replay")
 		_ = os.WriteFile(rp, []byte(strings.Join(replay, "\n")+"\n"), 0o644)
 	}
 	line := fmt.Sprintf("pkg %s seed=%d", test, seed)
 	if err := c12Child(r.T, test, out, seed, rp, 16, extra); err != nil {
-		r.Violate("C18/child/package-run-failed", trunc200(test+": "+err.Error()), line)
+		r.Violate(pid+"/child/package-run-failed", trunc200(test+": "+err.Error()), line)
 		r.Emit(line, "failed")
 		return
 	}
@@ -207,14 +214,20 @@ func c18Child(r *Run, test string, replay []string, seed uint64) {
 	_ = json.Unmarshal(b, &st)
 	n := 0
 	for _, v := range st.Violations {
-		if strings.HasPrefix(v.Signature, "C18/") {
+		if strings.HasPrefix(v.Signature, pid+"/") {
 			n++
 			r.Violate(v.Signature, test+": "+v.Detail, append([]string{"pkg " + test}, v.Replay...)...)
 		}
 	}
 	r.Emit(line, "ok")
-	r.Hit(fmt.Sprintf("c18child/%s/imported", test))
-	r.Set("c18-"+test, map[string]int{"ops": st.Ops, "traces": st.Traces, "imports": st.Branches["c18/imported"], "import_failed": st.Branches["c18/import-failed"], "c18_violations": n})
+	r.Hit(fmt.Sprintf("%schild/%s/ran", lp, test))
+	info := map[string]int{"ops": st.Ops, "traces": st.Traces, "violations": n}
+	for k, v := range st.Branches {
+		if strings.HasPrefix(k, lp+"/") {
+			info[k] = v
+		}
+	}
+	r.Set(lp+"-"+test, info)
 	os.RemoveAll(out)
 }
 
